@@ -29,12 +29,18 @@ fn texts() -> Vec<(&'static str, Vec<&'static str>, Vec<&'static str>)> {
         ("world w1 { import f: func(); export g: func(); }\nworld w2 { include w1 with { f as ff, g as gg }§ }", vec![], vec!["w1", "w2"]),
         ("interface a { type t = u32; type u = string; resource res { constructor(); } resource other { constructor(); } }\ninterface b { use a.{t as u, res as other}; }\ninterface c { use b.{u as v, other as mine}; f: func(x: v, y: borrow<mine>) -> v; }", vec!["a", "b", "c"], vec![]),
         ("interface a { type t = u32; }\ninterface b { use a.{t}; }\ninterface c { use b.{t}; }\ninterface d { use c.{t as tt}; g: func() -> tt; }", vec!["a", "b", "c", "d"], vec![]),
-        ("#key:world-use-after-import-of-same-interface#interface a { type t = u8; }\nworld w { import a; use a.{t}; export g: func(x: t); }", vec!["a"], vec!["w"]),
+        ("interface a { type t = u8; }\nworld w { import a; use a.{t}; export g: func(x: t); }", vec!["a"], vec!["w"]),
         ("#key:world-use-after-inline-interface-use#interface a { resource r { constructor(); } }\nworld w { import i: interface { use a.{r}; f: func(x: borrow<r>); }§ use a.{r}; export g: func(x: r); }", vec!["a"], vec!["w"]),
         ("#key:include-drops-used-types#interface a { type t = u8; }\nworld w1 { use a.{t}; import f: func(x: t); }\nworld w2 { include w1; export g: func(); }", vec!["a"], vec!["w1", "w2"]),
         // the same members declared in different orders (discriminants / bit positions / layout follow the declaration)
         ("interface a { enum color { red, green, blue } flags p { r, w, x } record rec { x: u8, y: u16, z: string } variant v { a(u8), b, c(string) } f: func(c: color, p: p, r: rec, v: v); }\ninterface b { enum color { blue, green, red } flags p { x, w, r } record rec { z: string, y: u16, x: u8 } variant v { c(string), b, a(u8) } f: func(c: color, p: p, r: rec, v: v); }\ninterface c { enum color { red, green, blue } enum colour { green, blue, red } flags p { r, w, x } flags q { w, x, r } g: func(a: color, b: colour, c: p, d: q); }", vec!["a", "b", "c"], vec![]),
         ("interface a { enum e { one, two } }\nworld w { enum e { two, one } flags f { b, a } import g: func(x: e, y: f); }\nworld w2 { flags f { a, b } enum e { one, two } export g: func(x: e, y: f); }", vec!["a"], vec!["w", "w2"]),
+        // an interface without `use`s that declares a type under a name another interface (encoded before it in the same
+        // scope) has `use`d: the two types stay different
+        ("interface a { type t = u32; }\ninterface y { record t { x: string } f: func(v: t); }\nworld w { use a.{t}; import y; export g: func(v: t); }", vec!["a", "y"], vec!["w"]),
+        ("interface a { type t = u32; }\ninterface b { use a.{t}; type u = list<t>; }\ninterface d { record t { x: string } }\ninterface c { use b.{u}; use d.{t as v}; f: func(p: u, q: v); }\nworld w2 { import c; import d; }", vec!["a", "b", "d", "c"], vec!["w2"]),
+        // a world importing an interface and, AFTER it, an interface it depends on
+        ("interface d { record t { x: string } }\ninterface c { use d.{t as v}; f: func(q: v); }\nworld w3 { import c; import d; }\nworld w4 { import d; import c; }\nworld w5 { export c; import d; }", vec!["d", "c"], vec!["w3", "w4", "w5"]),
         // `include .. with` renames an import and an export of the same name
         ("world w1 { import a: func(); export a: func(); }\nworld w2 { include w1 with { a as b }§ }", vec![], vec!["w1", "w2"]),
         ("interface a { variant v { a(list<tuple<u8, u16>>), b(option<option<string>>), c(result), d(result<u8>), e(result<_, u8>) } f: func(x: v); }", vec!["a"], vec![]),
